@@ -62,7 +62,7 @@
 
 #ifdef MELUND_EZC3D_VERIF
 // Verification hook (off by default): a weak symbol the verification driver may define.
-// site: 1 READ(bytes requested, stream failed) 10..13 LOAD header/parameters/data/done
+// site: 1 READ(bytes requested, stream failed) 2 entry of a parameter-matrix loop 10..13 LOAD header/parameters/data/done
 //       20..24 SAVE header/parameters/data/close/done
 extern "C" void melund_ezc3d_verif_hook(int site, unsigned long a, unsigned long b) __attribute__((weak));
 #define MELUND_EZC3D_VERIF_HOOK(site, a, b) \
